@@ -66,6 +66,11 @@ func sinkPred(p *Program, kind string) (string, func(ssa.Instruction) bool) {
 
 func (c *Ctx) canonRule(p *Program, rule string, in canonInst) {
 	f := p.Func(in.pkg, in.recv, in.name)
+	if f == nil && c.override != "" {
+		// back-end specific code (e.g. the optimised P-384) does not exist in every configuration
+		c.ok(rule, fmt.Sprintf("%s.%s.%s: reduces before the %s", in.pkg, in.recv, in.name, in.sink), "not part of this build configuration", "")
+		return
+	}
 	set := map[string]bool{}
 	for _, r := range in.reducers {
 		set[r] = true
@@ -110,7 +115,7 @@ func checkC12(c *Ctx) {
 		return
 	}
 	c.Clauses = append(c.Clauses,
-		"C12.canon: the canonicalising operations of the fields with redundant representations (GF(2^255-19), GF(2^448-2^224-1), GF(2^127-1), the Goldilocks scalars) call the final reduction before they copy out, convert or compare the element; the Montgomery-form fields (BLS12-381 Fp and scalars, Prio3 Fp64/Fp128, P-384) leave Montgomery form before serialising",
+		"C12.canon: the canonicalising operations of the fields with redundant representations (GF(2^255-19), GF(2^448-2^224-1), GF(2^127-1), the Goldilocks scalars) call the final reduction before they copy out, convert or compare the element; the big.Int based P-256/384/521 scalar operations store their result through the reducing setter; the Montgomery-form fields (BLS12-381 Fp and scalars, Prio3 Fp64/Fp128, P-384) leave Montgomery form before serialising",
 		"C12.modulus: the stored moduli are the specified primes (2^255-19, 2^448-2^224-1, 2^127-1, the BLS12-381 base and scalar field orders)",
 		"C12.redconst: the constants of the word-level reductions satisfy their defining congruences (Kyber: q·q' ≡ 1 mod 2^16 for the multiplier used by montReduce; Dilithium: q·Qinv ≡ -1 mod 2^32 and ROver256·256 ≡ 2^64 mod q)")
 	c.NotDec = append(c.NotDec,
@@ -135,6 +140,12 @@ func checkC12(c *Ctx) {
 		{"vdaf/prio3/arith/fp128", "Fp", "Marshal", []string{"(vdaf/prio3/arith/fp128.Fp).fromMont"}, "call:(golang.org/x/crypto/cryptobyte.Builder).AddBytes"},
 		{"vdaf/prio3/arith/fp64", "Fp", "GetUint64", []string{"(vdaf/prio3/arith/fp64.Fp).fromMont"}, "return"},
 		{"ecc/p384", "affinePoint", "toInt", []string{"ecc/p384.montDecode"}, "return"},
+		{"group", "wScl", "Add", []string{"(group.wScl).fromBig"}, "return"},
+		{"group", "wScl", "Sub", []string{"(group.wScl).fromBig"}, "return"},
+		{"group", "wScl", "Mul", []string{"(group.wScl).fromBig"}, "return"},
+		{"group", "wScl", "Neg", []string{"(group.wScl).fromBig"}, "return"},
+		{"group", "wScl", "Inv", []string{"(group.wScl).fromBig"}, "return"},
+		{"group", "wScl", "fromBig", []string{"(math/big.Int).Mod"}, "call:(group.wScl).UnmarshalBinary"},
 	} {
 		c.canonRule(p, "C12.canon", in)
 	}
